@@ -76,6 +76,28 @@ Theorem C05_pipeline_skipped_are_cross_label : forall bl L r, in_bucket bl L r =
 Proof. exact bucket_skipped_iff. Qed.
 Print Assumptions C05_pipeline_skipped_are_cross_label.
 
+(* under per-frame uniqueness (no two results of a frame share the estimated track (uuid, label) or the ground-truth
+   uuid -- the matcher pairs every estimate and every ground truth at most once, C01) the frame-level and the
+   scene-level counters of every label are the DECLARATIVE counts of C05_clear_refines_spec on the label's buckets:
+   TP = correct or continues the pairing of a TP of the previous frame's bucket, switch = new TP whose pairing differs
+   from the pairing a TP of the previous frame's bucket had, score = the previous score for continued pairings *)
+Theorem C05_pipeline_refines_spec : forall tl mm Lt (prev : option pfr) (cur : pfr) (frames : list pfr),
+  (pframe_unique (prev_res prev) -> pframe_unique (f_res cur) ->
+   counters_eq (k_cnt (frame_clear mm Lt prev cur))
+               (spec_counts (mode_of mm) [Lt]
+                  [map (view mm) (bucket (f_bl cur) (fst Lt) (prev_res prev)); map (view mm) (bucket (f_bl cur) (fst Lt) (f_res cur))])) /\
+  ((forall fr, In fr frames -> pframe_unique (f_res fr)) ->
+   counters_eq (k_cnt (scene_clear tl mm Lt frames))
+               (spec_counts (mode_of mm) [Lt] ([] :: map (fun fr => map (view mm) (bucket tl (fst Lt) (f_res fr))) frames))).
+Proof. intros tl mm Lt prev cur frames. split; [apply frame_clear_refines_spec|apply scene_clear_refines_spec]. Qed.
+Print Assumptions C05_pipeline_refines_spec.
+
+Theorem C05_pipeline_unique_buckets : forall mm bl L (f : pframe),
+  NoDup (map (fun r => (pr_est r, pr_elab r)) f) /\ NoDup (pgt_ids f) ->
+  NoDup (map est_key (map (view mm) (bucket bl L f))) /\ NoDup (gt_ids (map (view mm) (bucket bl L f))).
+Proof. exact bucket_view_unique. Qed.
+Print Assumptions C05_pipeline_unique_buckets.
+
 (* C13: add_frame_result evaluates frame i against frame i-1 (the first against no frame) and appends it *)
 Theorem C05_pipeline_predecessor_is_previous_frame : forall tl cfg frs st,
   run_frames tl cfg st frs = (st ++ frs, frame_outs tl cfg (last_opt st) frs) /\
@@ -256,13 +278,15 @@ Example C05_pipeline_nonvacuous_run :
   c_score (k_cnt (frame_clear MCenter (6%nat, 1#2) (Some ex_f1) ex_f2)) == 1#4 /\
   (* the cross-label pair of frame 3 is in the CAR bucket and skipped *)
   countb (fun r => Nat.eqb 1 (pthr_label r)) (bucket (f_bl ex_f3) 1 (f_res ex_f3)) = 2%nat /\
-  oq_eq (k_mota (scene_clear ex_tl MCenter (1%nat, 1) ex_frames)) (Some (2#5)).
+  oq_eq (k_mota (scene_clear ex_tl MCenter (1%nat, 1) ex_frames)) (Some (2#5)) /\
+  (forall fr, In fr ex_frames -> pframe_unique (f_res fr)).
 Proof.
   split; [|split; [|split]].
   - intros fr [<-|[<-|[<-|[]]]] L [<-|[<-|[]]]; reflexivity.
   - intros fr [<-|[<-|[<-|[]]]] l; unfold mem, ex_tl; cbn [f_bl ex_f1 ex_f2 ex_f3 existsb]; destruct (Nat.eqb l 1), (Nat.eqb l 6); reflexivity.
   - repeat constructor; cbn; intuition discriminate.
-  - vm_compute. repeat split; reflexivity.
+  - split; [|split; [|split; [|split; [|split; [|split; [|split; [|split; [|split]]]]]]]]; try (vm_compute; reflexivity).
+    intros fr [<-|[<-|[<-|[]]]]; split; vm_compute; repeat constructor; simpl; intuition discriminate.
 Qed.
 
 Example C05_pipeline_nonvacuous_renaming :
